@@ -1,9 +1,11 @@
 """Statement execution (direct style + generator style for generator functions)."""
 import ast
+import os
 import z3
 from .values import *  # noqa
 from .core import *  # noqa
 from . import extract
+Z_INT, Z_BOOL = z3.IntSort(), z3.BoolSort()
 
 
 class GenObj:
@@ -218,6 +220,9 @@ class StmtMixin:
                 self.emit_obligation('%s:%s:%s' % (kind, label, cl.label), goal, cl.expr, cl.props)
 
         label = 'loop[%s]' % ast.unparse(s.iter)
+        mo = self.heap.get(it) if isinstance(it, Ref) else None
+        if isinstance(mo, Obj) and mo.cls == 'map-iter':
+            return self.for_map_with_invariant(s, spec_, mo, inv_obligations, spec_frame, fr)
         inv_obligations('invariant-entry')
         for t in spec_['modifies']:
             if callable(t):
@@ -250,6 +255,72 @@ class StmtMixin:
             return
         except ContinueSig:
             pass
+        inv_obligations('invariant-preserved')
+        raise PathEnd()
+
+    def for_map_with_invariant(self, s, spec_, view, inv_obligations, spec_frame, fr):
+        """Inductive rule for `for x in <symbolic map>.values() / .items() / .keys()` (a map of ANY size): a ghost set
+        `visited` (subset of the map's keys) names the elements already processed.  Entry: the invariant holds with
+        visited = {} (obligation).  Then from an ARBITRARY state satisfying the invariant (loop frame havocked) either
+        visited == keys -- the code after the loop runs -- or an arbitrary unvisited key k0 is processed by the real
+        body and the invariant must hold again with visited + {k0} (obligation), which ends that path.  No order of
+        iteration is assumed.  The loop must not add or remove keys (checked)."""
+        mref = view.fields['map']
+        m = self.heap.get(mref)
+        kind = view.fields['kind']
+        dom0 = m.dom
+        vis = self.sym_value('smap:bool', 'visited')
+        vo = self.heap.get(vis)
+        k = z3.Int('vis!k')
+        vo.dom = z3.K(Z_INT, z3.BoolVal(False))
+        fr.locals['visited'] = vis
+        inv_obligations('invariant-entry')
+        for t in spec_['modifies']:
+            if callable(t):
+                t(self, fr.locals)
+            else:
+                self.havoc_in(spec_frame, t, fr.locals)
+        for name, desc in spec_['locals'].items():
+            fr.locals[name] = self.sym_value(desc, name)
+        m = self.heap.get(mref)
+        if m.dom is not dom0 and not z3.eq(m.dom, dom0):
+            raise Unsupported('loop frame changes the key set of the iterated map')
+        done = self.choose([z3.BoolVal(True), z3.BoolVal(True)], 'map-loop', names=['exhausted', 'next-element'], exclusive=False)
+        if done == 0:
+            vo.dom = dom0
+        else:
+            self.counter += 1
+            seen = z3.Array('visited!%d' % self.counter, Z_INT, Z_BOOL)
+            k0 = self.fresh('loop_key', 'int')
+            vo.dom = z3.Lambda([k], z3.And(z3.Select(seen, k), z3.Select(dom0, k)))
+            self.assume(z3.And(z3.Select(dom0, k0), z3.Not(z3.Select(seen, k0))))
+            self.touch_index(k0)
+        for cl in spec_['invariant']:
+            f_ = zbool(self.truth(self.spec_eval_in(spec_frame, cl.ast, dict(fr.locals))))
+            if os.environ.get('H2VC_DEBUG_LOOP'):
+                print('LOOP-INV', done, cl.label, f_)
+            self.assume_spec(f_)
+            if self.check() == z3.unsat:
+                raise Unsupported('loop invariant is unsatisfiable in the arbitrary state (vacuous) at clause: %s' % cl.expr)
+        if done == 0:
+            self.exec_block(s.orelse)
+            return
+        if m.elem_cls is not None:
+            v = View(mref.oid, zint(k0), '', m.elem_cls)
+        else:
+            v = self.getitem(mref, k0, s) if kind != 'keys' else None
+        self.assign_target(s.target, k0 if kind == 'keys' else (v if kind == 'values' else (k0, v)))
+        try:
+            self.exec_block(s.body)
+        except BreakSig:
+            return
+        except ContinueSig:
+            pass
+        m = self.heap.get(mref)
+        if m.dom is not dom0 and not z3.eq(m.dom, dom0):
+            raise Unsupported('loop body changes the key set of the iterated map')
+        prev = vo.dom
+        vo.dom = z3.Lambda([k], z3.Or(z3.Select(prev, k), k == k0))
         inv_obligations('invariant-preserved')
         raise PathEnd()
 
